@@ -752,6 +752,46 @@ def c15_cases(tier):
 FAMILIES = {"C15": c15_cases, "C13": c13_cases, "C03": c13_cases, "C14": c14_cases, "C16": c16_cases, "C17": c17_cases, "C11": c11_cases, "C08": c08_cases, "C10": c10_cases, "C06": c06_cases, "C04": c04_cases, "C05": c05_cases, "C12": c12_cases, "C09": c09_cases, "C02": c02_cases, "C01": c01_cases}
 
 
+EXEC_DIR = os.path.join(VERIF, "replay-exec")
+EXEC_TARGET = os.path.join(WORK, "exec-target")
+_exec_cache = None
+
+
+def exec_probes():
+    """Build (incrementally) and run the compiled-code harness /verif/replay-exec against /repo's working tree.
+    Returns (probes, error): probes = list of {"p","case","ok","detail"}; error = text when the harness cannot be built / run."""
+    global _exec_cache
+    if _exec_cache is not None:
+        return _exec_cache
+    env = dict(os.environ, CARGO_NET_OFFLINE="true", CARGO_TARGET_DIR=EXEC_TARGET)
+    lock = os.path.join(EXEC_DIR, "Cargo.lock")
+    try:
+        shutil.copyfile(os.path.join(REPO, "Cargo.lock"), lock)
+    except Exception:
+        pass
+    p = subprocess.run(["cargo", "build", "--release", "--offline"], cwd=EXEC_DIR, env=env, capture_output=True, text=True)
+    if p.returncode != 0:
+        errs = [l for l in p.stderr.splitlines() if l.startswith("error")]
+        _exec_cache = ([], "the consumer crate /verif/replay-exec does not build against this tree: " + " | ".join(errs[:4]))
+        return _exec_cache
+    try:
+        r = subprocess.run([os.path.join(EXEC_TARGET, "release", "vx-replay-exec")], capture_output=True, text=True, timeout=120)
+    except subprocess.TimeoutExpired:
+        _exec_cache = ([], "the harness timed out")
+        return _exec_cache
+    probes = []
+    for l in r.stdout.splitlines():
+        try:
+            probes.append(json.loads(l))
+        except Exception:
+            pass
+    err = None
+    if r.returncode != 0:
+        err = "the harness died (exit %s): %s" % (r.returncode, r.stderr.strip()[-300:])
+    _exec_cache = (probes, err)
+    return _exec_cache
+
+
 def search_witness(pid, obligation, tier):
     if pid == "C20":
         return c20_witness(tier)
@@ -776,6 +816,12 @@ def replay_file(path):
         print("replay file names obligation %s of %s; the verifier gave no counterexample and the bounded search found no failing input" % (d.get("obligation"), d.get("property")))
         for t in d.get("verifier_output", [])[:3]:
             print(t)
+        return 1
+    if "exec" in w["case"]:
+        probes, err = exec_probes()
+        bad = [p for p in probes if p.get("p") == d.get("property") and not p.get("ok")]
+        print(json.dumps({"harness": "/verif/replay-exec (cargo build --release --offline; vx-replay-exec)", "error": err, "failing_probes": bad[:10]}, indent=1))
+        print("recorded observation:", w["observed"])
         return 1
     if "cli" in w["case"]:
         if "existing_output" in w["case"]:
